@@ -8,8 +8,10 @@ mod focus;
 mod hunt;
 mod idx;
 mod maps;
+mod parse;
 mod pg;
 mod proto;
+mod render;
 mod rng;
 mod table;
 mod topo;
@@ -35,7 +37,13 @@ fn main() {
         "e2e.str" => e2e::run_strings(seed, thorough, if thorough { 20000 } else { 1200 }),
         "e2e.mat" => e2e::run_matrices(seed, thorough, if thorough { 15000 } else { 900 }),
         "e2e.pg" => pg::run_e2e(seed, thorough, if thorough { 12000 } else { 700 }),
-        "pg.stages" => pg::run_stages(seed, thorough),
+        "pg.stages" => {
+            pg::run_stages(seed, thorough);
+            pg::run_tree_families(seed, thorough)
+        }
+        "pg.families" => pg::run_tree_families(seed, thorough),
+        "parse" => parse::run(seed, thorough),
+        "render" => render::run(seed, thorough),
         "cross.heur" => cross::run_heur(seed, thorough),
         "cross.sets" => cross::run_sets(seed, thorough),
         "cross.ext" => cross::run_ext(seed, thorough),
